@@ -10,13 +10,17 @@ from .lib.mir import AnchorLost
 CONFIGS_QUICK = ["A"]
 CONFIGS_THOROUGH = ["A", "R", "NOAPI"]
 TECHNIQUE = "sibling-family rules over the impl table (absolute rule per member + agreement with the member's arity) and dominance rules on FangActionProc::bite's coroutine"
-LEVEL_TEXT = ("Decides clauses C04-a..d: each of the Fangs impls (blanket, unit, tuples 1-8) builds chain(f1, chain(f2, .. chain(fn, inner))) and hands exactly "
-              "that to BoxedFPC::from_proc (same nesting for openapi_map_operation); FangActionProc::bite calls the inner proc only on the Ok edge of fore, "
-              "back only after the inner proc, and returns the Err response without either; the four local-fang IntoHandler impls wrap the handler's own "
-              "proc with the fang tuple in declaration order and delegate n_params; every Routing impl (all arities) stores the tuple of its leading fang "
-              "components in order and applies each remaining component exactly once, in order; FangsList::into_proc_with seeds the fold with the first "
-              "list's build of the handler proc and wraps the rest in iteration order, for both the matched and the not-found proc of a node. Decides "
-              "these clauses, not the order/scope across mounted applications after tree compression.")
+LEVEL_TEXT = ('Decides clauses C04-a..d and C04-f/g/h: each of the Fangs impls (blanket, unit, tuples 1-8) builds chain(f1, chain(f2, .. chain(fn, inner))) and hands'
+              ' exactly that to BoxedFPC::from_proc (same nesting for openapi_map_operation); FangActionProc::bite calls the inner proc only on the Ok edge of fore, '
+              "back only after the inner proc, and returns the Err response without either; the four local-fang IntoHandler impls wrap the handler's own proc with "
+              'the fang tuple in declaration order and delegate n_params; every Routing impl (all arities) stores the tuple of its leading fang components in order '
+              "and applies each remaining component exactly once, in order; FangsList::into_proc_with seeds the fold with the first list's build of the handler proc "
+              'and wraps the rest in iteration order, for both the matched and the not-found proc of a node; when an application is mounted, every success path of '
+              "the per-method tree merge passes through the step that hands the mounted application's fangs to the mount point (no early success return before it); a"
+              " node's fang list grows only in FangsList::add, under a search of the whole list for the application id (no duplicate entry, so no fang runs twice); "
+              "the final tree's single-child compression absorbs a child only under tests that node, child and the node above carry the same fangs (two known "
+              'findings on the pinned tree: it does not, see known_findings.json). Decides these clauses, not the order/scope across mounted applications after tree '
+              'compression.')
 
 FANG_CHAIN = r"^ohkami::fang::Fang::chain$"
 
@@ -31,6 +35,8 @@ def run(ck, progs):
         ck.guard("C04-c SIBLING local fangs", lambda: c04c(ck, prog))
         ck.guard("C04-d SIBLING routing order", lambda: c04d(ck, prog))
         ck.guard("C04-f MUSTPASS mount fangs", lambda: c04f(ck, prog))
+        ck.guard("C04-g INVARIANT one entry per application", lambda: c04g(ck, prog))
+        ck.guard("C04-h GUARD compression keeps fang scope", lambda: c04h(ck, prog))
     ck.config = None
 
 
@@ -279,9 +285,8 @@ def c04d(ck, prog):
     else:
         ck.ob(R, "into_proc_with:shape", False, f.loc(None), "into_proc_with is not `match iter.next() { None => .., Some(first) => iter.fold(..) }`")
     # proc and catch of a final node are both built from the node's fang list
-    fr = [g for g in prog.fns.values() if g.name == "from" and g.trait == "core::convert::From" and g.self_ty == "ohkami::router::final::Node" or (g.name == "from" and g.self_ty and g.self_ty.endswith("final::Node"))]
-    if not fr:
-        fr = [g for g in prog.fns.values() if g.name == "from" and "final" in g.key and "Node" in g.key and "base::Node" in g.key]
+    from .C01 import final_builder
+    fr = [final_builder(prog)]
     if fr:
         g = fr[0]
         ip = [c for h in [g] + prog.descendants(g.key) for c in h.calls_to(r"FangsList::into_proc_with$")]
@@ -333,3 +338,131 @@ def c04f(ck, prog):
     rec = [c for c in ap.calls() if c.callee == ap.key]
     ok = len(add) == 1 and len(rec) == 1 and all(ap.dominates(add[0].bb, r) for r in ap.exits()) and not [fa for fa in guards.facts_at(ap, prog, add[0].bb) if fa.kind in ("cmp", "boolcall", "boolplace") or (fa.kind == "variant" and fa.allowed == {"Some"} and "handler" in guards.describe_origin(ap, fa.steps))]
     ck.ob(R, "apply_fangs:every-node", ok, ap.loc(None), "" if ok else "Node::apply_fangs does not add the fangs to every node of the subtree (also handler-less ones, which serve the 404s)", how="recurse into children; self.fangses.add(id, fangs) unconditionally")
+
+
+def c04g(ck, prog):
+    """A node's FangsList holds each application's fangs at most once (the same list is reached several times: by
+    apply_fangs per node, and by the final tree's compression, which appends whole lists). into_proc_with wraps once per
+    entry, so a duplicate entry runs that application's fangs twice. The list grows only in `add`, and only under a test
+    over the *whole* list that the application id is absent."""
+    R = "C04-g INVARIANT one entry per application"
+    add = prog.one(r"^ohkami::router::base::FangsList::add$")
+    pushes = [c for c in add.calls() if c.name in ("push", "insert", "push_front", "extend", "extend_from_slice")]
+    ok = len(pushes) == 1
+    how = ""
+    why = "FangsList::add grows the list at %d site(s)" % len(pushes)
+    if ok:
+        p = pushes[0]
+        scan = None
+        for fa in guards.facts_at(add, prog, p.bb):
+            if fa.kind != "boolcall":
+                continue
+            d = decision.describe_deep(add, fa.call.args[0], 6)
+            whole = re.search(r"\b(find|position|find_map)\(iter\((deref\()?arg1\.0", d) is not None
+            if fa.call.name == "is_none" and fa.truth and whole:
+                scan = (fa, d)
+            if fa.call.name in ("any", "contains") and not fa.truth and re.search(r"iter\((deref\()?arg1\.0|^(deref\()?arg1\.0", d):
+                scan = (fa, d)
+            if fa.call.name == "all" and fa.truth and re.search(r"iter\((deref\()?arg1\.0", d):
+                scan = (fa, d)
+        ok = scan is not None
+        why = "the push in FangsList::add is not guarded by a search of the whole list for the application id (e.g. only its last entry is looked at): appending two equal lists of two or more entries, as the final tree's compression does, duplicates them and those fangs run twice"
+        if ok:
+            # the predicate compares the id parameter
+            fa, d = scan
+            cl = None
+            call = fa.call if fa.call.name in ("any", "all", "contains") else None
+            if call is None:
+                st = add.origin(fa.call.args[0])
+                call = st[-1][1] if st and st[-1][0] == "call" else None
+            names = set()
+            if call is not None:
+                for a in call.args:
+                    st = add.origin(a)
+                    if st and st[-1][0] == "agg" and st[-1][1][1].get("k") == "closure":
+                        g = prog.fns.get(st[-1][1][1]["def"])
+                        if g is not None:
+                            names |= {c.name for c in g.calls()}
+                            cl = g
+            ok = call is not None and (call.name == "contains" or bool(names & {"eq", "ne"}))
+            why = "the search guarding the push does not compare application ids"
+            how = "push dominated by `%s` == %s over the whole list" % (d[:70], fa.truth)
+    ck.ob(R, "add:absent-in-whole-list", ok, add.loc(pushes[0].sp if pushes else None), "" if ok else why, how=how)
+    # who may grow a FangsList: only `add`
+    n = 0
+    for g in prog.fns.values():
+        if g.crate != "ohkami" or g is add:
+            continue
+        for c in g.calls():
+            if c.name in ("push", "insert", "push_front", "extend", "extend_from_slice", "append") and c.args and (c.callee or "").startswith("alloc::vec::Vec"):
+                d = decision.describe_deep(g, c.args[0], 4)
+                ty = ""
+                st = g.origin(c.args[0])
+                for x in st:
+                    for pr in (x[2] if len(x) > 2 else []):
+                        if pr[0] == "f" and "Arc<dyn ohkami::fang::Fangs" in (pr[3] or ""):
+                            ty = pr[3]
+                if ty:
+                    n += 1
+                    ck.ob(R, "who:grows-list:" + g.key[-60:], False, g.loc(c.sp), "%s grows a fang list directly (%s), bypassing FangsList::add's duplicate test" % (g.key, d[:40]))
+    ck.ob(R, "who:only-add-grows-the-list", n == 0, add.loc(None), "" if n == 0 else "%d direct growth site(s)" % n, how="no Vec growth on a FangsList outside FangsList::add", nontrivial=False)
+
+
+def fangs_list_test(prog, f, call, depth=2):
+    """is `call` (a bool-valued call tested by a branch) a comparison of fang lists? -> description of its operands or None.
+    Accepts a bool method of FangsList / PartialEq on FangsList, directly or inside the predicate closure of
+    is_none_or / is_some_and / map_or / all / any."""
+    cal = call.callee or ""
+    args = [decision.describe_deep(f, a, 4) for a in call.args]
+    tys = " ".join(f.place_ty(a[1]) or "" for a in call.args if a[0] in ("c", "m"))
+    if ("FangsList" in cal or "FangsList" in tys or "FangsList" in " ".join(call.targs or [])) and f.locals[call.dest[0]] == "bool":
+        return args
+    if depth > 0 and call.name in ("is_none_or", "is_some_and", "map_or", "all", "any", "is_ok_and"):
+        for a in call.args:
+            st = f.origin(a)
+            if st and st[-1][0] == "agg" and st[-1][1][1].get("k") == "closure":
+                g = prog.fns.get(st[-1][1][1]["def"])
+                if g is None:
+                    continue
+                for c in g.calls():
+                    sub = fangs_list_test(prog, g, c, depth - 1)
+                    if sub is not None:
+                        # operands as seen from the caller: the receiver of the combinator and the closure's captures
+                        caps = [paths.capture_desc(prog, g, x) for x in c.args]
+                        return [args[0]] + [x for x in caps if x]
+    return None
+
+
+def c04h(ck, prog):
+    """Single-child compression merges a node with its child: the merged node answers with one fang list, and a miss below
+    the merged pattern falls to the node above. That preserves `fangs of an application run exactly for the requests under
+    its mount prefix, outer before inner` only if the node, its child and the node above carry the same fangs. The absorb
+    step must be taken under both tests, made in the same loop iteration."""
+    R = "C04-h GUARD compression keeps fang scope"
+    from .C01 import final_builder
+    from .lib.bound import natural_loops
+    f = final_builder(prog)
+    loops = natural_loops(f)
+    stores = [(bi, st) for bi, st, agg in decision.field_stores(f, "handler") if st["p"][0] == 1 and any(bi in b for b in loops.values())]
+    if not stores:
+        # no compression at all (edge runtimes): nothing to guard
+        ck.ob(R, "compression:none", True, f.loc(None), how="the final node builder does not absorb children in this configuration", nontrivial=False)
+        return
+    bi, st = stores[0]
+    body = loops[min([h for h in loops if bi in loops[h]], key=lambda h: len(loops[h]))]
+    tests = []
+    for fa in guards.facts_at(f, prog, bi):
+        if fa.kind == "boolcall" and fa.truth and fa.sw_bb in body:
+            ops = fangs_list_test(prog, f, fa.call)
+            if ops is not None:
+                tests.append(" ~ ".join(ops))
+    child = [t for t in tests if re.search(r"arg1\.fangses", t) and re.search(r"children", t)]
+    outer = [t for t in tests if re.search(r"arg1\.fangses", t) and re.search(r"\barg2\b", t)]
+    ck.ob(R, "absorb:same-fangs-as-child", bool(child), f.loc(st.get("sp")),
+          "" if child else "a node absorbs its single static child without a test that both carry the same fangs (tests on fang lists in the iteration: %r): the merged node runs the union, "
+          "in the wrong order (`Ohkami::new((P, \"/api\".By(Ohkami::new((C, \"/x\".GET(h))))))`: GET /api/x runs C before P, and GET /other runs C although it is outside /api)" % tests,
+          how="absorb dominated by %s" % (child[0] if child else ""))
+    ck.ob(R, "absorb:same-fangs-as-node-above", bool(outer), f.loc(st.get("sp")),
+          "" if outer else "a node absorbs its single static child without a test that the node above carries the same fangs (tests on fang lists in the iteration: %r): a miss under the merged pattern "
+          "falls to the node above and skips the mounted application's fangs (`(P, \"/\".GET(h), \"/v\".GET(h), \"/api\".By(Ohkami::new((C, \"/x\".GET(h)))))`: GET /api/nope runs P only)" % tests,
+          how="absorb dominated by %s" % (outer[0] if outer else ""))
